@@ -21,8 +21,9 @@ import (
 
 // node is an element of the process-tree grammar.
 //
-//	leaf     vhelper hang <marker> [--ignore-int] [>/dev/null 2>&1]
+//	leaf     vhelper hang <marker> [--ignore-int | --reset-int] [>/dev/null 2>&1]
 //	sh       sh -c '<k1> & <k2> & ... <kn>'        (children in the process group of sh; all but the last in the background)
+//	         sh -c '<k1> & ... <kn> & wait'        (all in the background, the shell waits with its builtin)
 //	pipe     <k1> | <k2>
 //	sub      ( <k1> )
 //	bg       <k1> & <k2>                            (only at interpreter level: k1 is an interpreter-level background command)
@@ -31,6 +32,8 @@ type node struct {
 	kids     []*node
 	ignore   bool
 	redirect bool
+	reset    bool // leaf: restores the default SIGINT action (matters for background children of sh)
+	wait     bool // sh: all children in the background, then the builtin 'wait'
 }
 
 type leafInfo struct {
@@ -52,12 +55,14 @@ func genNode(t *rapid.T, depth int, inSh bool) *node {
 	switch n.kind {
 	case "leaf":
 		n.ignore = rapid.IntRange(0, 3).Draw(t, "ignoreInt") == 0
-		n.redirect = rapid.IntRange(0, 3).Draw(t, "redirect") == 0
+		n.redirect = rapid.IntRange(0, 9).Draw(t, "redirect") < 4
+		n.reset = !n.ignore && inSh && rapid.Bool().Draw(t, "resetInt")
 	case "sh":
 		k := rapid.IntRange(1, 3).Draw(t, "shChildren")
 		for i := 0; i < k; i++ {
 			n.kids = append(n.kids, genNode(t, depth+1, true))
 		}
+		n.wait = rapid.IntRange(0, 9).Draw(t, "shWait") < 4
 	case "pipe", "bg":
 		n.kids = []*node{genNode(t, depth+1, inSh), genNode(t, depth+1, inSh)}
 	case "sub":
@@ -74,15 +79,21 @@ func (n *node) render(vh, marker, ready string, inSh, bgOfSh, interpBg, piped bo
 		if n.ignore {
 			s += " --ignore-int"
 		}
+		if n.reset {
+			s += " --reset-int"
+		}
 		if n.redirect {
 			s += " >/dev/null 2>&1"
 		}
-		*leaves = append(*leaves, leafInfo{surviveInt: n.ignore || bgOfSh, holdsPipe: !n.redirect, inSh: inSh, interpBg: interpBg})
+		*leaves = append(*leaves, leafInfo{surviveInt: n.ignore || (bgOfSh && !n.reset), holdsPipe: !n.redirect, inSh: inSh, interpBg: interpBg})
 		return s
 	case "sh":
 		var parts []string
 		for i, k := range n.kids {
-			parts = append(parts, k.render(vh, marker, ready, true, bgOfSh || i < len(n.kids)-1, interpBg, piped, leaves))
+			parts = append(parts, k.render(vh, marker, ready, true, bgOfSh || n.wait || i < len(n.kids)-1, interpBg, piped, leaves))
+		}
+		if n.wait {
+			return "sh -c " + shq(strings.Join(parts, " & ")+" & wait")
 		}
 		return "sh -c " + shq(strings.Join(parts, " & "))
 	case "pipe":
@@ -106,6 +117,9 @@ func (n *node) shape() string {
 		if n.ignore {
 			s += "i"
 		}
+		if n.reset {
+			s += "d"
+		}
 		if n.redirect {
 			s += "r"
 		}
@@ -115,7 +129,11 @@ func (n *node) shape() string {
 	for _, k := range n.kids {
 		ks = append(ks, k.shape())
 	}
-	return n.kind + "(" + strings.Join(ks, ",") + ")"
+	kind := n.kind
+	if n.wait {
+		kind = "shwait"
+	}
+	return kind + "(" + strings.Join(ks, ",") + ")"
 }
 
 func (n *node) depth() int {
@@ -261,11 +279,11 @@ const lingerAllowance = 250 * time.Millisecond
 
 // TestC20: canceling a job leaves no process of its tasks behind.
 func TestC20(t *testing.T) {
-	col := ev.Get("C20", "trees", "process trees from a grammar over 'vhelper hang' (leaf | sh -c with foreground/background children | pipeline | subshell | interpreter-level background command; leaves may ignore the interrupt and/or redirect their output away from the task's pipe; depth <= 4), run as a task of a real job next to a bystander job; kill timeout 300-500 ms; cancel (or forced shutdown) at a generated instant, also before the whole tree is up; oracle from /proc after the job is reported finished: no non-zombie process carrying the job's marker is alive (250 ms allowance), report - cancel <= kill timeout + 1.5 s, the bystander's processes are all alive; shapes of the two recorded findings are excluded by construction (counted) and exercised separately; non-trivial = depth >= 2 or a background/pipeline/ignore-int element; distinct by tree shape x cancel phase")
+	col := ev.Get("C20", "trees", "process trees from a grammar over 'vhelper hang' (leaf | sh -c with foreground/background children | pipeline | subshell | interpreter-level background command; leaves may ignore the interrupt and/or redirect their output away from the task's pipe; depth <= 4), run as a task of a real job next to a bystander job; kill timeout 450-700 ms; cancel (or forced shutdown) at a generated instant, also before the whole tree is up; oracle from /proc after the job is reported finished: no non-zombie process carrying the job's marker is alive (250 ms allowance), report - cancel <= kill timeout + 1.5 s, the bystander's processes are all alive; shapes of the two recorded findings are excluded by construction (counted) and exercised separately; non-trivial = depth >= 2 or a background/pipeline/ignore-int element; distinct by tree shape x cancel phase")
 	vh := helper(t)
 	// the two recorded findings, exercised deterministically
 	for _, kf := range knownFindings(vh) {
-		res := runKillCase(t, vh, kf.script, kf.leaves, 400*time.Millisecond, 0, true, false)
+		res := runKillCase(t, vh, kf.script, kf.leaves, 600*time.Millisecond, 0, true, false)
 		if len(res.lingering) > 0 && res.lingerFor > lingerAllowance {
 			if isListed(kf.key) {
 				col.AddKnown(fmt.Sprintf("key=%s %s", kf.key, kf.what))
@@ -273,6 +291,40 @@ func TestC20(t *testing.T) {
 			} else {
 				t.Fatalf("[C20] %s: %d processes of the canceled job are alive for %s after it was reported finished (shape %s)", kf.key, len(res.lingering), res.lingerFor.Round(10*time.Millisecond), kf.key)
 			}
+		}
+	}
+	// a fixed prelude of small shapes, so that the basic ones are exercised in every run whatever the seed
+	if os.Getenv("VERIF_SHARD") == "" || os.Getenv("VERIF_SHARD") == "0" {
+		L := func(ignore, redirect, reset bool) *node {
+			return &node{kind: "leaf", ignore: ignore, redirect: redirect, reset: reset}
+		}
+		prelude := []*node{
+			L(false, false, false), L(true, false, false), L(true, true, false),
+			{kind: "sh", kids: []*node{L(false, false, false), L(false, false, false)}},
+			{kind: "sh", wait: true, kids: []*node{L(false, true, true)}},
+			{kind: "sh", wait: true, kids: []*node{L(false, false, true), L(false, true, true)}},
+			{kind: "sh", kids: []*node{L(false, true, true), L(false, false, false)}},
+			{kind: "pipe", kids: []*node{L(false, false, false), L(false, false, false)}},
+			{kind: "sub", kids: []*node{{kind: "sh", kids: []*node{L(false, false, false), L(true, false, false)}}}},
+		}
+		for _, root := range prelude {
+			var leaves []leafInfo
+			script := root.render(vh, "@MARKER@", "@READY@", false, false, false, false, &leaves)
+			res := runKillCase(t, vh, script, len(leaves), 600*time.Millisecond, 0, true, false)
+			shape := root.shape()
+			if !res.view.Canceled {
+				t.Fatalf("tree %s: the canceled job is reported canceled=%v completed=%v", shape, res.view.Canceled, res.view.Completed)
+			}
+			if len(res.lingering) > 0 && res.lingerFor > lingerAllowance {
+				t.Fatalf("tree %s (kill timeout 600ms): %d processes of the job are still alive %s after it was reported finished", shape, len(res.lingering), res.lingerFor.Round(10*time.Millisecond))
+			}
+			if res.reportAfter > 600*time.Millisecond+1500*time.Millisecond {
+				t.Fatalf("tree %s: the job was reported finished %s after the cancel, kill timeout is 600ms", shape, res.reportAfter.Round(10*time.Millisecond))
+			}
+			if !res.otherAlive {
+				t.Fatalf("tree %s: canceling the job killed processes of another job", shape)
+			}
+			col.Add(shape+"|prelude", root.depth() >= 2 || strings.Contains(shape, "Li"), map[string]int{"prelude-shape": 1}, len(leaves), map[string]interface{}{"tree": shape, "script": script, "prelude": true, "report_after_ms": res.reportAfter.Milliseconds()})
 		}
 	}
 	rapid.Check(t, func(rt *rapid.T) {
@@ -297,7 +349,7 @@ func TestC20(t *testing.T) {
 				rt.Skip("no admissible tree drawn")
 			}
 		}
-		killTimeout := time.Duration(rapid.IntRange(300, 500).Draw(rt, "killTimeoutMs")) * time.Millisecond
+		killTimeout := time.Duration(rapid.IntRange(450, 700).Draw(rt, "killTimeoutMs")) * time.Millisecond
 		early := rapid.IntRange(0, 3).Draw(rt, "cancelEarly") == 0
 		cancelAfter := time.Duration(rapid.IntRange(0, 120).Draw(rt, "cancelAfterMs")) * time.Millisecond
 		viaShutdown := rapid.IntRange(0, 4).Draw(rt, "viaForcedShutdown") == 0
